@@ -566,7 +566,70 @@ def r10d(P, R):
         else:
             R.undecided("R10-d", "resolver-root", "no plugin transformation of the document was found; what the root resolvers type covers is not decided", loc=pd0.loc())
 
-    sections(R, "R10-d", ("kind-table", _part0), ("object-resolvers", _part1), ("args-and-results", _part2), ("interface-resolvers", _part3), ("union-resolvers", _part4), ("implementers", _part5), ("abstract-aliases", _part6), ("resolver-root", _part7))
+    def output_aliases():
+        # Every type that resolvers, the ResolverOutput map and the type-name union refer to by its local alias has that alias
+        # declared: whether `type X = ..` is written for a definition is decided by the *kind* of the definition alone (input
+        # objects are skipped), exactly like the lists that reference the aliases — never by something computed about the
+        # definition (the result of building its resolver type, the number of its fields, a lookup).
+        pd0 = P.fn(PR + "resolver_type_printer::printer::ResolverTypePrinter::print_document")
+        pd = inlined(P, pd0, pred=stable_pred(lambda x: "resolver_type_printer::printer" in x.path))
+        pv = Prov(pd)
+        nodes = pd.nodes()
+        sites = [i for i, (n, _) in enumerate(nodes) if n.get("k") == "MethodCall" and n.get("method") == "write" and n["args"] and lit_value(n["args"][0]) == "type "]
+        if not sites:
+            R.undecided("R10-d", "alias-per-output-type", "no `type <name> = ..` alias emission was found in %s or the helpers of its module" % pd0.path, loc=pd0.loc())
+            return
+
+        def guards_until_loop(i):
+            """(loop node, [guard expressions]) of nodes()[i]: conditions / scrutinees between the node and its innermost loop"""
+            gs = []
+            for c in enclosing_contexts(pd, i):
+                if c[0] == "loop":
+                    return c[1], gs
+                if c[0] in ("if-then", "if-else"):
+                    gs.append(c[1]["cond"])
+                elif c[0] == "arm" and c[1] is not None and c[1].get("src") == "Normal":
+                    gs.append(c[1]["scrut"])
+                elif c[0] == "let-else" and c[1].get("init") is not None:
+                    gs.append(c[1]["init"])
+            return None, gs
+        for si in sites:
+            loop, guards = guards_until_loop(si)
+            if loop is None:
+                R.undecided("R10-d", "alias-per-output-type", "the alias emission is not inside a loop over the definitions", loc=pd0.loc())
+                continue
+            # skips before the emission in the same loop iteration
+            for j, (n, _) in enumerate(nodes[:si]):
+                if n.get("k") in ("Continue", "Break") and not n.get("x"):
+                    l2, g2 = guards_until_loop(j)
+                    if l2 is loop:
+                        guards += g2
+            # what the guards compute *inside the iteration* (about the element): calls of printer functions among the guard expressions
+            # and the loop-local bindings they read; where the iterated collection came from is not a property of the element
+            inside = {id(x) for x in subnodes(loop)}
+            computed, seen, st = set(), set(), list(guards)
+            while st:
+                x = st.pop()
+                if isinstance(x, list):
+                    st.extend(x)
+                elif isinstance(x, dict):
+                    if x.get("k") == "Path" and "local" in x:
+                        if x["local"] not in seen:
+                            seen.add(x["local"])
+                            st.extend(src for src, _ in pv.src.get(x["local"], []) if src is not None and id(src) in inside)
+                        continue
+                    if x.get("k") in ("Call", "MethodCall"):
+                        c = call_name(x) or ""
+                        if c.startswith((PR, "<" + PR)) and c in P.fns and not P.fns[c].derived:
+                            computed.add(short(c))
+                    st.extend(v for kk, v in x.items() if kk != "inl" and isinstance(v, (dict, list)))
+            computed = sorted(computed)
+            R.check("R10-d", "alias-per-output-type", not computed, "a local alias is declared for every definition but the input kinds (decided by kind only)",
+                    "%s declares the local alias `type X = ..` of a definition only depending on %s: a type for which that computation says "
+                    "\"skip\" loses its alias although resolvers of other types and the ResolverOutput map still refer to it by that name"
+                    % (pd0.path, computed), loc=pd0.loc())
+
+    sections(R, "R10-d", ("kind-table", _part0), ("object-resolvers", _part1), ("args-and-results", _part2), ("interface-resolvers", _part3), ("union-resolvers", _part4), ("implementers", _part5), ("abstract-aliases", _part6), ("resolver-root", _part7), ("output-aliases", output_aliases))
 
 
 def r10e(P, R):
